@@ -438,7 +438,7 @@ func c07Codec(c *Ctx) {
 			continue
 		}
 		for _, m := range must {
-			r.Check(len(core.CallsTo(fn, m)) > 0, "C07-D1", "dispatch:"+fnk+"->"+m, p.FnPos(fn), "decoder level is wired", fnk+" no longer calls "+m)
+			r.Check(len(core.CallsToDeep(fn, m)) > 0, "C07-D1", "dispatch:"+fnk+"->"+m, p.FnPos(fn), "decoder level is wired", fnk+" no longer calls "+m)
 		}
 	}
 	// the file reader uses this decoder
@@ -446,7 +446,7 @@ func c07Codec(c *Ctx) {
 	if rn == nil {
 		r.Undecided("C07-D1", "readNextEntry", "-", "anchor not found")
 	} else {
-		r.Check(len(core.CallsTo(rn, "(*querylog.queryLog).decodeLogEntry")) > 0, "C07-D1", "file-reader-uses-decoder", p.FnPos(rn), "readNextEntry decodes with decodeLogEntry", "readNextEntry no longer uses decodeLogEntry")
+		r.Check(len(core.CallsToDeep(rn, "(*querylog.queryLog).decodeLogEntry")) > 0, "C07-D1", "file-reader-uses-decoder", p.FnPos(rn), "readNextEntry decodes with decodeLogEntry", "readNextEntry no longer uses decodeLogEntry")
 	}
 	// the file writer uses encoding/json on *logEntry
 	ee := p.Fn("(*querylog.queryLog).encodeEntries")
